@@ -500,7 +500,7 @@ impl<'a, T: IteTable<'a, BddPtr<'a>> + Default> Session<'a, T> {
                 let a = self.arg(rng, false);
                 ev["a"] = json!([a]);
                 let x = self.pool[a];
-                let kind = *rng.pick(&["real", "bool", "ff", "complex", "eu", "poly", "rat"]);
+                let kind = *rng.pick(&["real", "bool", "ff", "complex", "eu", "poly", "rat", "polyhi"]);
                 let wq = gen_weights(rng, kind, nv, op == "wmc");
                 wq.log(&mut ev);
                 count_in(x, &wq, nv, &mut ev)
@@ -615,7 +615,9 @@ impl<'a, T: IteTable<'a, BddPtr<'a>> + Default> Session<'a, T> {
             // "tiny" runs put the query weights on the scale 1/512 (k <= 2), so that every candidate value is far
             // below any absolute epsilon a pruning test might use; each variable then has its own exponent
             let tiny = rng.chance(1, 3) && !q.is_empty();
-            let wexps: Vec<u32> = (0..nv).map(|i| if tiny && q.contains(&i) { 3 } else { 1 }).collect();
+            // (1/512 per query variable, or 1/8^7: three such factors are below the f64 machine epsilon)
+            let texp = if rng.coin() { 3 } else { 7 };
+            let wexps: Vec<u32> = (0..nv).map(|i| if tiny && q.contains(&i) { texp } else { 1 }).collect();
             let ws: Vec<(i64, i64)> = (0..nv)
                 .map(|i| {
                     if q.contains(&i) {
@@ -752,6 +754,24 @@ pub fn gen_weights(rng: &mut Rng, kind: &'static str, nv: usize, normalised: boo
                 let (a, c) = (rng.below(9) as i64, signed(rng, 3));
                 (vec![a, c], vec![8 - a, -c])
             }
+            // high-degree weights a + c*t^k: the degrees of the variables add up to about 31, the last coefficient slot
+            ("polyhi", nrm) => {
+                let base = (31 + nv - 1) / nv.max(1); // degrees add up to 31 +- nv over all variables
+                let k = (base + rng.below(3)).saturating_sub(1).clamp(1, 16);
+                let (a, c) = (rng.below(9) as i64, if rng.chance(1, 6) { 0 } else { *rng.pick(&[-2i64, -1, 1, 2]) });
+                let mut lo = vec![0i64; k + 1];
+                let mut hi = vec![0i64; k + 1];
+                lo[0] = a;
+                lo[k] = c;
+                if nrm {
+                    hi[0] = 8 - a;
+                    hi[k] = -c;
+                } else {
+                    hi[0] = rng.below(5) as i64;
+                    hi[k] = *rng.pick(&[-1i64, 0, 1, 2]);
+                }
+                (lo, hi)
+            }
             ("poly", false) => (
                 vec![rng.below(4) as i64, signed(rng, 3)],
                 vec![rng.below(4) as i64, signed(rng, 3)],
@@ -825,6 +845,19 @@ pub fn count_in<'a, P: DDNNFPtr<'a>>(x: P, ws: &WeightSpec, nv: usize, ev: &mut 
         "eu" => {
             let p = params(ws, |c| ExpectedUtility(c[0] as f64 / d, c[1] as f64 / d));
             guarded(|| x.unsmoothed_wmc(&p)).map(|v| ev["val"] = json!([num(v.0 * total), num(v.1 * total)]))
+        }
+        "polyhi" => {
+            let p = params(ws, |c| {
+                let mut q = Polynomial::<RealSemiring>::zero();
+                for (i, x) in c.iter().enumerate() {
+                    q.coefficients[i] = RealSemiring(*x as f64 / d);
+                }
+                q.len = c.len();
+                q
+            });
+            guarded(|| x.unsmoothed_wmc(&p)).map(|v| {
+                ev["val"] = json!((0..32).map(|i| num(v.coefficients[i].0 * total)).collect::<Vec<_>>());
+            })
         }
         "poly" => {
             let p = params(ws, |c| {
